@@ -378,10 +378,22 @@ def stmts_in(block: List[ast.stmt]) -> List[ast.AST]:
 # attribute names that only the Options class declares (set once per run from the repo's source): a read of such an
 # attribute through any local name is a read of the options, whatever the local is called
 DISTINCT_OPTION_ATTRS: Set[str] = set()
+# local names some function binds to `<expr>.options` / `<expr>.__options__` (a hoisted options object under any name)
+OPTION_ALIASES: Set[str] = set()
 
 
 def set_option_attrs(repo: Repo):
     DISTINCT_OPTION_ATTRS.clear()
+    OPTION_ALIASES.clear()
+    for m in repo.modules.values():
+        for st in ast.walk(m.tree):
+            if isinstance(st, ast.Assign) and len(st.targets) == 1 and isinstance(st.targets[0], ast.Name):
+                v = st.value
+                if isinstance(v, ast.BoolOp) and isinstance(v.op, ast.Or):
+                    v = v.values[0]
+                if isinstance(v, ast.Attribute) and v.attr in ("options", "__options__"):
+                    OPTION_ALIASES.add(st.targets[0].id)
+    OPTION_ALIASES.difference_update({"self", "cls"})
     try:
         O = repo.cls("utype.parser.options", "Options")
     except AnalysisError:
@@ -408,7 +420,7 @@ def opt_attr(e) -> Optional[str]:
     """`options.X` / `context.options.X` / `self.options.X` / `transformer.options.X` -> 'X'"""
     if isinstance(e, ast.Attribute):
         v = e.value
-        if isinstance(v, ast.Name) and v.id in ("options", "opts", "option", "opt", "_options"):
+        if isinstance(v, ast.Name) and (v.id in ("options", "opts", "option", "opt", "_options") or v.id in OPTION_ALIASES):
             # the repo's convention for a hoisted `<ctx>.options`
             return e.attr
         if isinstance(v, ast.Name) and e.attr in DISTINCT_OPTION_ATTRS and v.id not in ("self", "cls", "field", "mcs"):
